@@ -57,6 +57,8 @@ type Set struct {
 	E     []Elem     // master copies, never passed to the code under test
 	Red   []*big.Int // Ops[i].V mod p
 	Unred int        // how many are >= p
+
+	Refused []Operand // operands Field.Load turned down (never silently ignored: see CheckAccepted)
 }
 
 // Prepare loads every operand through Field.Load; refused ones are dropped.
@@ -65,6 +67,7 @@ func (f *Field) Prepare(label string, ops []Operand) *Set {
 	for _, o := range ops {
 		e := f.New()
 		if !f.Load(e, o.V) {
+			s.Refused = append(s.Refused, o)
 			continue
 		}
 		s.Ops = append(s.Ops, o)
@@ -76,6 +79,25 @@ func (f *Field) Prepare(label string, ops []Operand) *Set {
 		}
 	}
 	return s
+}
+
+// CheckAccepted reports every canonical value (v == Norm(v)) that the
+// constructor behind Field.Load refused: a decoder must accept every residue.
+func (f *Field) CheckAccepted(r Reporter, ctor string, s *Set) {
+	t := new(big.Int)
+	n := 0
+	for k, o := range s.Refused {
+		if f.norm(t, o.V).Cmp(o.V) != 0 {
+			continue
+		}
+		n++
+		o := o
+		f.Report(r, ctor, "refuses-canonical-value", "-", "reduced", f.Name+"."+ctor+"#refused"+itoa(k), func() (string, interface{}) {
+			return fmt.Sprintf("%s.%s refuses the canonical value %s (%s)", f.Name, ctor, f.hex(o.V), o.Name), map[string]string{"value": f.hex(o.V), "name": o.Name}
+		})
+	}
+	r.Count(f.Name+"."+ctor+".operands-accepted", s.Len())
+	r.Count(f.Name+"."+ctor+".canonical-refused", n)
 }
 
 // Sub returns the sub-list selected by keep.
